@@ -58,6 +58,16 @@ Setup ==
          << [op |-> "NewDoc", out |-> "d1"], [op |-> "AddNs", h |-> "d1", p |-> "ex", u |-> A],
             [op |-> "NewDoc", out |-> "d2"], [op |-> "AddNs", h |-> "d2", p |-> "ex", u |-> A],
             [op |-> "NewDoc", out |-> "d3"], [op |-> "AddNs", h |-> "d3", p |-> "e3", u |-> A] >>
+    [] Scenario = "c04b" ->     \* three equal documents; compare, edit through any mutator, compare again
+         << [op |-> "NewDoc", out |-> "d1"], [op |-> "AddNs", h |-> "d1", p |-> "ex", u |-> A],
+            [op |-> "NewDoc", out |-> "d2"], [op |-> "AddNs", h |-> "d2", p |-> "ex", u |-> A],
+            [op |-> "NewDoc", out |-> "d3"], [op |-> "AddNs", h |-> "d3", p |-> "e3", u |-> A] >>
+         \o [i \in 1..6 |->
+               LET h == <<"d1", "d2", "d3">>[((i - 1) % 3) + 1] IN
+               IF i <= 3 THEN NR(h, "activity", <<NameQN("ex", A, Y)>>,
+                                 << <<"startTime", [t |-> "dt", v |-> "t1"]>> >>, <<>>)
+               ELSE NR(h, "entity", <<NameQN("ex", A, X)>>, <<>>,
+                       << <<NameQN("ex", A, <<"attr">>), [t |-> "int", v |-> "1"]>> >>)]
     [] Scenario = "c12" ->
          SetupWorld \o
          << NR("d1", "entity", <<NamePL("ex", X)>>, <<>>,
@@ -119,6 +129,7 @@ RecMenu ==
            [k |-> "generation", id |-> <<NameQN("ex", A, <<"g">>)>>,
             formals |-> << <<"entity", Ref(NameQN("ex", A, X))>> >>, extras |-> <<>>],
            [k |-> "generation", id |-> <<>>, formals |-> << <<"entity", Ref(NameQN("ex", A, Y))>> >>, extras |-> <<>>] }
+    [] Scenario = "c04b" -> {}
     [] Scenario = "c12" ->
          { [k |-> "entity", id |-> <<NamePL("ex", Y)>>, formals |-> <<>>, extras |-> <<>>],
            [k |-> "entity", id |-> <<NamePL("ex", X)>>, formals |-> <<>>,
@@ -156,9 +167,18 @@ ActsMutate ==   \* C12 follow-up mutators on any live object
 ActsBundle04 == { [op |-> "Bundle", h |-> h, id |-> NameQN("ex", A, <<"b1">>), out |-> h \o "b"]
                     : h \in Docs \cap {"d1", "d2"} }
 ActsCompare == { [op |-> "CompareAll", hs |-> <<"d1", "d2", "d3">>] }
+ActsEdit04 ==
+  { [op |-> "SetTime", r |-> [c |-> h, i |-> 1], start |-> s, end |-> e]
+      : h \in {"d1", "d2", "d3"}, s \in {<<>>, <<[t |-> "dt", v |-> "t2"]>>},
+        e \in {<<[t |-> "dt", v |-> "t2"]>>} }
+  \cup { [op |-> "AddType", r |-> [c |-> h, i |-> i], v |-> [t |-> "name", n |-> NameQN("prov", ProvNS, <<"Plan">>)]]
+           : h \in {"d1", "d2", "d3"}, i \in {1, 2} }
+  \cup { [op |-> "AddAttrs", r |-> [c |-> h, i |-> 2], form |-> "pairs",
+           pairs |-> << <<NameQN("ex", A, <<"attr">>), [t |-> "int", v |-> "7"]>> >>] : h \in {"d1", "d2", "d3"} }
 Compared == Len(hist) > NSetup /\ hist[Len(hist)].op = "CompareAll"
 Menu ==
   CASE Scenario = "c04" -> IF Compared THEN {} ELSE ActsNewRec \cup ActsBundle04 \cup ActsCompare
+    [] Scenario = "c04b" -> ActsEdit04 \cup (IF Compared THEN {} ELSE ActsCompare)
     [] Scenario = "c18" -> ActsNewRec \cup ActsAddRecord \cup ActsUpdate \cup ActsAddBundle
                            \cup ActsDerive \cup ActsGet
     [] Scenario = "c09" -> ActsNewRec \cup ActsUpdate \cup ActsAddBundle \cup ActsBundle
